@@ -92,7 +92,7 @@ class PinRule(SymRule):
                         ts = ts | frozenset(['bad:prep_digest'])
         return ts
 
-    BIG = 2 ** 63
+    BIG = 2 ** 63 - 1
 
     def nowrap_fact(self, op, l, r, ts):
         """An edge that proves a sum of unsigned quantities representable: X <= MAX - Y (MAX a constant of at least
